@@ -110,13 +110,22 @@ want_se = 150 if Q else 1500
 tries = 0
 while len(se_meta) < want_se and tries < 20 * want_se:
     tries += 1
-    geom = snellexact.random_geometry(rng)
+    intvel = tries % 5 == 0
+    geom = snellexact.random_geometry(rng, integer_velocities=intvel)
     if geom is None:
         continue
     d_tube = snellexact.tube_distance(geom["src"], geom["phi"], geom["walls"], geom["vels"], geom["last_len"])
     if d_tube is None or not (d_tube > 0):
         continue
     path = snellexact.arim_path(geom, arim)
+    if intvel:
+        # a hand-built FermatPath whose velocities are written as integers (Python int / numpy int64): the same numbers
+        fp_ = path.to_fermat_path()
+        seq_ = []
+        for k_, x_ in enumerate(fp_):
+            seq_.append((int(x_) if tries % 10 == 0 else np.int64(int(x_))) if k_ % 2 == 1 else x_)
+        path.rays = arim.ray.Rays(path.rays.times, path.rays.interior_indices, arim.ray.FermatPath(tuple(seq_)))
+        chk.count(snell_exact_velocities="integer-typed")
     impl = float(model.beamspread_2d_for_path(arim.ray.RayGeometry.from_path(path))[0, 0])
     impl_rev = float(model.reverse_beamspread_2d_for_path(arim.ray.RayGeometry.from_path(path))[0, 0])
     n = geom["nlegs"]
@@ -150,6 +159,36 @@ for m, o in zip(se_meta, drv.run(se_lines) if se_lines else []):
         # the model itself disagrees with the finite-difference tube: model/spec problem, not arim's
         chk.violation("snell-exact:fd-tube", "finite-difference ray tube disagrees with the proved model", m,
                       failing_input_found=False)
+
+# a path that meets the SAME wall twice (the same Interface object at two positions, as arim's own back-wall echo paths
+# do): the beamspread of the cached RayGeometry must be that of an uncached one, and the model's on its inputs
+ws_lines, ws_meta = [], []
+for t_ in range(3 if Q else 20):
+    S_ = arimgen.immersion_setup(rng, max_refl=1, wall_points=int(rng.integers(40, 120)), numelements=int(rng.integers(2, 4)),
+                                 numscat=int(rng.integers(2, 4)), trace=False)
+    I_ = S_["interfaces"]
+    modes_ = ["L"] + [str(rng.choice(["L", "T"])) for _ in range(4)]
+    pth = arim.Path([I_["probe"], I_["frontwall_trans"], I_["backwall_refl"], I_["frontwall_refl"], I_["backwall_refl"], I_["grid"]],
+                    [S_["couplant"]] + [S_["block"]] * 4, modes_, name="twice-the-back-wall")
+    arim.ray.ray_tracing_for_paths([pth])
+    unc = arim.ray.RayGeometry.from_path(pth, use_cache=False)
+    n_ = unc.numinterfaces - 1
+    vel_ = [float(v) for v in pth.velocities]
+    legs_ = [np.asarray(unc.inc_leg_size(k)) for k in range(1, n_ + 1)]
+    ths_ = [np.asarray(unc.conventional_inc_angle(k)) for k in range(1, n_)]
+    got_ = {"fwd": np.asarray(model.beamspread_2d_for_path(arim.ray.RayGeometry.from_path(pth))),
+            "rev": np.asarray(model.reverse_beamspread_2d_for_path(arim.ray.RayGeometry.from_path(pth)))}
+    for i_ in range(got_["fwd"].shape[0]):
+        for j_ in range(got_["fwd"].shape[1]):
+            xs_ = vel_ + [float(l[i_, j_]) for l in legs_] + [float(t[i_, j_]) for t in ths_]
+            ws_lines.append(f"{n_} " + " ".join(fhex(x) for x in xs_))
+            ws_meta.append(dict(modes="".join(modes_), i=i_, j=j_, impl=float(got_["fwd"][i_, j_]), impl_rev=float(got_["rev"][i_, j_])))
+    chk.count(wall_met_twice="".join(modes_))
+for m_, o_ in zip(ws_meta, drv.run(ws_lines) if ws_lines else []):
+    b_, rb_, _, _ = (unhex(x) for x in o_.split())
+    if not close(m_["impl"], b_, TOL) or not close(m_["impl_rev"], rb_, TOL):
+        chk.violation("same-wall-twice", "beamspread on a path that meets the same Interface object twice differs from the model fed with "
+                      "the leg lengths and angles of an uncached RayGeometry", dict(m_, model_beamspread=b_, model_reverse=rb_))
 
 # single medium, LARGE target sets (a TFM grid of more than 2^15 points): d = r for every ray, forward and reverse
 g_ = arim.geometry
@@ -199,7 +238,7 @@ for _ in range(3 if Q else 20):
 samples = [{k: meta[i][k] for k in ("path", "vel", "legs", "thetas", "impl", "model_beamspread", "spec_tube_amplitude")}
            for i in range(0, len(meta), max(1, len(meta) // 4))][:4]
 chk.finish(
-    evaluations=len(meta) + nscale + len(se_meta) + 2 * (36000 if Q else 106000),
+    evaluations=len(meta) + nscale + len(se_meta) + len(ws_meta) + 2 * (36000 if Q else 106000),
     distinct_nontrivial=len(nontrivial),
     rule=("one case = one ray (element i, scatterer j) of one path of a random immersion set-up (random materials, "
           "tilt, standoff, wall sampling, 0..2 reflections => 2..4 legs with mode conversion); non-trivial = at least "
